@@ -75,6 +75,13 @@ def iv_join(a, b):
     return Iv(lo, lc, hi, hc, a.scale or b.scale)
 
 
+def rn_pre(ls, f):
+    u = upd_by_loc(ls, ('lv', f.params[1].id, ()))
+    if u is None:
+        raise AnalysisBroken('vegas_icdf does not write its random-number argument')
+    return u['pre']
+
+
 def _same_data(v, D):
     """v is the raw data slice D of the current dimension"""
     return v == D
@@ -99,7 +106,7 @@ def check(ctx):
         e, loops = convs[0]
         ls = s.loops[loops[0]['loop']]
         i = ls.idx
-        u = sel(('pre', ls.id, 'random_numbers'), i)
+        u = sel(rn_pre(ls, f), i)
         box = iv_eval(e['operand'], u, Iv(Fraction(0), True, Fraction(1), True), bins)
         w = '%s:vegas_icdf' % e['where']
         if box.scale and box.lo >= 0 and (box.hi < 1 or (box.hi == 1 and not box.hc)):
@@ -116,12 +123,11 @@ def check(ctx):
         row = mul(i, add(bins, ONE))
         xs = fld(PDF, 'x')
         want_reads = {sel(xs, add(row, idx)), sel(xs, add(row, add(idx, ONE)))}
-        w_ = ls.updates.get('weight')
-        rn = ls.updates.get('random_numbers')
+        rn = upd_by_loc(ls, ('lv', f.params[1].id, ()))
+        if rn is None:
+            raise AnalysisBroken('coordinate update not found in vegas_icdf')
         got = set()
-        for u_ in (w_, rn):
-            if u_ is None:
-                raise AnalysisBroken('weight / coordinate update not found in vegas_icdf')
+        for u_ in ls.updates.values():
             for t in T.subterms(u_['next']):
                 if isinstance(t, tuple) and t and t[0] == 'sel' and t[1] == xs:
                     got.add(t)
@@ -130,11 +136,11 @@ def check(ctx):
         else:
             ctx.violation('R1.reads', where, 'grid boundaries other than index / index+1 of the row are read',
                           {'reads': sorted(T.pretty(t)[:200] for t in got)})
-        b = ls.updates.get('bin')
-        if b is not None and b['kind'] == 'map' and b['body'] == T.subst(idx, {u: sel(b['init'] if False else ('pre', ls.id, 'random_numbers'), i)}) or \
-                (b is not None and b['kind'] == 'map'):
+        b = upd_by_loc(ls, ('lv', f.params[2].id, ()))
+        if b is not None and b['kind'] == 'map':
             stored = b['body']
-            exp = T.subst(idx, {('pre', ls.id, 'random_numbers'): sym('random_numbers')})
+            exp = T.subst(idx, {rn_pre(ls, f): sym('random_numbers'), sym(f.params[1].name): sym('random_numbers')})
+            stored = T.subst(stored, {rn_pre(ls, f): sym('random_numbers'), sym(f.params[1].name): sym('random_numbers')})
             if stored == exp:
                 ctx.holds('R1.stored_bin', where, 'the bin index reported for the point is the index used')
             else:
